@@ -862,7 +862,13 @@ class SymCtx:
         if extra:
             self.solver.pop()
         self.n_queries += 1
-        self.solver_s += time.time() - t
+        dt = time.time() - t
+        self.solver_s += dt
+        if dt > 1.0 and os.environ.get("SYMX_SLOWLOG"):
+            with open(os.environ["SYMX_SLOWLOG"], "a") as fh:
+                fh.write(f"--- {dt:.2f}s {r} at {_where()} extra={[str(e)[:300] for e in extra]}\n")
+                if os.environ.get("SYMX_SLOWLOG_FULL"):
+                    fh.write(self.solver.sexpr() + "\n")
         return r, m
 
     def begin_path(self):
@@ -919,8 +925,19 @@ class SymCtx:
             self.n_decisions += 1
         self._consume(e)
 
+    def _ensure_model(self):
+        if self.model is None:
+            r, m = self._check()
+            if r == z3.sat:
+                self.model = m
+            elif r == z3.unsat:
+                raise HarnessError("lemmas contradict the path condition")
+            else:
+                raise PathAbort("solver unknown after lemma")
+        return self.model
+
     def _model_side(self, term):
-        mv = self.model.eval(term, model_completion=True)
+        mv = self._ensure_model().eval(term, model_completion=True)
         if z3.is_true(mv):
             return True
         if z3.is_false(mv):
@@ -1017,7 +1034,7 @@ class SymCtx:
             if c is not None:
                 v = c[2]
             else:
-                v = self.model.eval(term, model_completion=True).as_long()
+                v = self._ensure_model().eval(term, model_completion=True).as_long()
                 self.cache[key] = (0, "cval", v)
             if self.branch(term == v):
                 return v
@@ -1117,15 +1134,8 @@ class SymCtx:
         apps[arg.hash()] = (arg, app)
         if lem:
             add(*lem)
-            # the current model may violate a lemma: refresh lazily
-            self._lemmas_added = True
-            r, m = self._check()
-            if r == z3.sat:
-                self.model = m
-            elif r == z3.unsat:
-                raise HarnessError("lemmas contradict the path condition")
-            else:
-                raise PathAbort("solver unknown after lemma")
+            # the current model may violate a lemma: refreshed on next use
+            self.model = None
 
     # -- integers rendered into text (nonces) ---------------------------------
     def render_int(self, x):
@@ -1172,7 +1182,7 @@ class SymCtx:
                 self.n_discharged += 1
                 self.n_concrete_true += 1
             else:
-                self._candidate(label, self.model, info, None)
+                self._candidate(label, self._ensure_model(), info, None)
             return
         if not isinstance(cond, SymBool):
             raise HarnessError("claim needs a boolean")
@@ -1236,10 +1246,26 @@ class SymCtx:
         )
 
     def model_inputs(self, model):
+        """Input assignment of a model, as JSON.  A real input that occurs as the
+        argument of the uninterpreted exp2 is *repaired*: it is recomputed as
+        log2 of the value the model gives to exp2(input), so that the real 2**x
+        of the replay agrees with what the symbolic run assumed (DESIGN.md 2.6)."""
         vals = {}
+        exp_apps = self.uf_apps.get("exp2", {})
         for name, x in self.inputs.items():
             v = model.eval(x.t, model_completion=True)
             vals[name] = _val_to_json(v)
+            if isinstance(x, SymReal) and exp_apps:
+                ent = exp_apps.get(x.t.hash())
+                if ent is not None and ent[0].eq(x.t):
+                    ev = model.eval(ent[1], model_completion=True)
+                    try:
+                        f = Fraction(_val_to_json(ev)) if not z3.is_int_value(ev) else Fraction(ev.as_long())
+                        if f > 0:
+                            n, d = f.numerator, f.denominator
+                            vals[name] = (n.bit_length() - d.bit_length()) + math.log2((n / (1 << n.bit_length())) / (d / (1 << d.bit_length()))) if max(n.bit_length(), d.bit_length()) > 900 else math.log2(f)
+                    except (_Unobservable, ValueError, OverflowError, ZeroDivisionError):
+                        pass
         return vals
 
     def cover(self, label, cond=True):
@@ -1260,10 +1286,14 @@ class SymCtx:
         self.n_paths += 1
         if self.record_paths and status == "ok" and len(self.paths) < self.max_recorded_paths:
             try:
-                obs = [(n, _eval_obs(v, self.model)) for n, v in self.obs]
-            except _Unobservable:
-                obs = None
-            self.paths.append({"inputs": self.model_inputs(self.model), "obs": obs, "claims": self.path_claims})
+                m = self._ensure_model()
+                try:
+                    obs = [(n, _eval_obs(v, m)) for n, v in self.obs]
+                except _Unobservable:
+                    obs = None
+                self.paths.append({"inputs": self.model_inputs(m), "obs": obs, "claims": self.path_claims})
+            except (PathAbort, _Unobservable):
+                pass
 
 
 class _Unobservable(Exception):
@@ -1286,8 +1316,20 @@ def _val_to_json(v):
 
 
 def _has_uf(t):
-    s = t.sexpr()
-    return any(("(" + n + " ") in s for n in UF_NAMES)
+    seen = set()
+    todo = [t]
+    while todo:
+        e = todo.pop()
+        i = e.get_id()
+        if i in seen:
+            continue
+        seen.add(i)
+        if z3.is_app(e):
+            d = e.decl()
+            if d.kind() == z3.Z3_OP_UNINTERPRETED and d.arity() > 0:
+                return True
+            todo.extend(e.children())
+    return False
 
 
 def _eval_obs(v, model):
